@@ -26,6 +26,7 @@ structure Core (ex : Option Nat) (s : State) : Prop where
   pidx : ∀ i h, s.pidx.get i = some h → (s.obj h).lidx = i ∧ i ≠ 0 ∧ s.indexes.get i = none ∧ (s.obj h).ready = true
   vpn : ∀ a h, s.vpnIps.get a = some h → (s.obj h).addrs = [a] ∧ ¬ Live s h ∧ some h ≠ ex
   fresh : ∀ h, s.next ≤ h → s.objs.get h = none
+  vpnReady : ∀ a h, s.vpnIps.get a = some h → (s.obj h).ready = true → s.pidx.get (s.obj h).lidx = some h
 
 def Cap (s : State) : Prop := ∀ a, (hostList s a).length ≤ maxHostInfos
 
@@ -79,7 +80,7 @@ theorem deleteHost_core {ex : Option Nat} {s : State} (c : Core ex s) (h : Nat) 
     split at hl
     · cases hl
     · rename_i hn; exact hn (by simpa using hl)
-  refine ⟨⟨d.rep, ?_, ?_, ?_, ?_, ?_, ?_, ?_, ?_, ?_, ?_, ?_, ?_⟩, lists, d⟩
+  refine ⟨⟨d.rep, ?_, ?_, ?_, ?_, ?_, ?_, ?_, ?_, ?_, ?_, ?_, ?_, ?_⟩, lists, d⟩
   · intro a x hx
     rw [lists a, List.mem_filter] at hx
     have hxh : x ≠ h := by simpa using hx.2
@@ -146,6 +147,8 @@ theorem deleteHost_core {ex : Option Nat} {s : State} (c : Core ex s) (h : Nat) 
     exact ⟨h1, fun hl => h2 (back x hl), h3⟩
   · intro x hx
     rw [d.next] at hx; rw [d.objs]; exact c.fresh x hx
+  · intro a x hx hr
+    rw [d.vpnIps] at hx; rw [obj] at hr ⊢; rw [d.pidx]; exact c.vpnReady a x hx hr
 
 theorem deleteHost_inv {s : State} (i : Inv s) (h : Nat) : Inv (deleteHost s h).1 := by
   obtain ⟨c, l, _⟩ := deleteHost_core i.core h (by simp)
